@@ -43,7 +43,7 @@ def check_one(rec, seed, opts):
     info = {'outcome': b.outcome, 'kinds': kinds_label(b), 'carriers': sorted(set(b.carriers.values()))}
     detail = {'rec': rec, 'seed': seed, 'opts': opts, 'hashseed': os.environ.get('PYTHONHASHSEED'),
               'outcome': b.outcome, 'exc': repr(b.exc), 'kinds': b.kinds, 'carriers': b.carriers,
-              'decoy': getattr(b, 'decoy', None), 'via_factory': getattr(b, 'via_factory', None)}
+              'decoy': getattr(b, 'decoy', None), 'elsewhere': repr(getattr(b, 'elsewhere', None))[:80], 'via_factory': getattr(b, 'via_factory', None)}
     if b.outcome == 'ok':
         if 'ok' not in allowed:
             why = 'conflict' if rec['conflict'] else ('malformed' if rec['bad']['k'] != 'none' else 'unresolved')
